@@ -467,7 +467,7 @@ func (x *Exec) atReturn(fr *Frame, c *Contract, entry, st *State, params, result
 			}
 		}
 		for name, v1 := range st.ghost {
-			if strings.HasPrefix(name, "bb:") && !listed[name] {
+			if strings.HasPrefix(name, "bb:") && !listed[name] && !x.bbFresh[name] {
 				// a buffer of a pre-existing object touched by this function must be listed
 				if v0, ok := entry.ghost[name]; !ok || v0 != v1 {
 					if bg, isB := v1.(*bbGhost); isB && bg != nil {
@@ -506,6 +506,13 @@ func (x *Exec) atReturn(fr *Frame, c *Contract, entry, st *State, params, result
 					g = tb.Or(lv.IsNil, tb.Eq(lv.Len, tb.BVi(64, 0)), tb.Bool(!lv.Obj.Pre))
 				case *PtrV:
 					g = tb.Or(lv.IsNil, tb.Bool(!lv.Obj.Pre))
+				case *IfaceV:
+					// an interface holding a pointer: the object pointed to must have been allocated by this call
+					if pv, isP := lv.Val.(*PtrV); isP && lv.Dyn != nil {
+						g = tb.Or(pv.IsNil, tb.Bool(!pv.Obj.Pre))
+					} else {
+						g = tb.False() // a value of unknown provenance cannot be shown fresh
+					}
 				default:
 					specFail("fresh of %T", v.V)
 				}
